@@ -177,6 +177,9 @@ def run(eng, run):
     check_keep(eng, run)
     check_lim(eng, run)
     check_one_error(eng, run)
+    from rules import c10
+    c10.check_conservation(eng, run, rule="C02.bound")
+    c10.check_raw_buffer_reads(eng, run, rule="C02.bound")
 
 
 # ---------------------------------------------------------------------------------------------- self-test corpus
